@@ -455,8 +455,8 @@ func init() {
 			sig:    true})})
 
 	register(&propDef{id: "C10",
-		projection: "bag of provenance of every hard group slice, execution counters of feeders",
-		kinds:      []string{"args.grp", "snap.grps"},
+		projection: "bag of provenance of every hard group slice, execution counters of feeders, a consumer of a group being called at all (no panic on the way)",
+		kinds:      []string{"args.grp", "snap.grps", "crash"},
 		extra: func(k, d string) bool {
 			return k == "exec.extra" || k == "exec.missing"
 		},
@@ -468,6 +468,8 @@ func init() {
 				wideCover("softnest", fam.SoftNest, rec, false, 60, 0),
 				structCover("groupcycle", fam.GroupCycle, rec, false, 10, 100, 2, 0),
 				wideCover("keys", fam.Keys, rec, false, 100, 0),
+				// a group of interfaces, nil interfaces among the flattened members
+				structCover("ifacegroups", fam.IfaceGroups, rec, false, 40, 0, 2, 0),
 				randCover("groups-rand", tweak(small, groupy), rec, 40, 400, 0),
 				randCover("groups-after-failures", tweak(small, groupy), recBoth, 40, 400, 1),
 			},
